@@ -9,8 +9,10 @@ import (
 	"os"
 	"os/exec"
 	"path/filepath"
+	"regexp"
 	"runtime"
 	"sort"
+	"strconv"
 	"strings"
 	"time"
 
@@ -412,4 +414,70 @@ func replayC13(c *Ctx, raw json.RawMessage) string {
 	r := newC13Runner(c)
 	defer r.close()
 	return r.check(cs.bytes(), cs.Origin)
+}
+
+// ---- native coverage-guided fuzzing (thorough tier only)
+
+func init() {
+	Register(&Unit{Prop: "C13", Name: "nativefuzz",
+		Shards:  func(tier string) int { return map[string]int{"quick": 0, "thorough": 1}[tier] },
+		Timeout: func(string) time.Duration { return 40 * time.Minute },
+		Run: func(c *Ctx) {
+			c.P.Rule = "go test -fuzz FuzzFrontEnd (in-process ParseAndBuild under a 20 s watchdog, corpus = corpus/*.y + hostile fragments), bounded by -fuzztime; cannot be seeded: only saved crashers count, each confirmed with the CLI"
+			hdir := filepath.Join(c.Verif, "harness")
+			tdir := filepath.Join(hdir, "fuzz", "testdata", "fuzz", "FuzzFrontEnd")
+			os.RemoveAll(filepath.Join(hdir, "fuzz", "testdata"))
+			r := gen.Run(20*time.Minute, hdir, nil, "go", "test", "-tags", "verif", "-run", "^$", "-fuzz", "FuzzFrontEnd", "-fuzztime", envOr("VERIF_FUZZTIME", "300s"), "-parallel", "12", "./fuzz")
+			execs := 0
+			for _, m := range regexp.MustCompile(`execs: (\d+)`).FindAllStringSubmatch(r.Stdout, -1) {
+				fmt.Sscan(m[1], &execs)
+			}
+			c.Eval(execs)
+			c.ClassN("native-fuzz-executions", execs)
+			files, _ := filepath.Glob(filepath.Join(tdir, "*"))
+			rn := newC13Runner(c)
+			defer rn.close()
+			for _, f := range files {
+				b, err := os.ReadFile(f)
+				if err != nil {
+					continue
+				}
+				in, ok := decodeFuzzFile(string(b))
+				if !ok {
+					continue
+				}
+				if cmd := rn.cliConfirm([]byte(in), 30*time.Second); cmd != "" {
+					if cmd2 := rn.cliConfirm([]byte(in), 30*time.Second); cmd2 != "" {
+						c.Violate(mkC13([]byte(in), "native fuzzing crasher "+filepath.Base(f)), fmt.Sprintf("`%s` does not finish within 30 s on this %d-byte input found by coverage-guided fuzzing\ninput: %q", cmd, len(in), clip(in, 600)))
+						continue
+					}
+				}
+				c.Inconclusive("fuzz crasher not confirmed by the CLI (watchdog under load?)")
+			}
+			os.RemoveAll(filepath.Join(hdir, "fuzz", "testdata"))
+			if r.TimedOut {
+				c.Inconclusive("fuzz run hit its wall-clock bound")
+			} else if r.Exit != 0 && len(files) == 0 {
+				c.Inconclusive("go test -fuzz ended with status " + fmt.Sprint(r.Exit) + " without a saved crasher: " + clip(lastLine(r.Stdout+r.Stderr), 200))
+			}
+		},
+		Replay: replayC13,
+	})
+}
+
+// decodeFuzzFile reads a Go fuzz corpus file with a single string argument.
+func decodeFuzzFile(s string) (string, bool) {
+	lines := strings.Split(s, "\n")
+	if len(lines) < 2 || !strings.HasPrefix(lines[0], "go test fuzz v1") {
+		return "", false
+	}
+	l := strings.TrimSpace(lines[1])
+	if !strings.HasPrefix(l, "string(") || !strings.HasSuffix(l, ")") {
+		return "", false
+	}
+	v, err := strconv.Unquote(l[len("string(") : len(l)-1])
+	if err != nil {
+		return "", false
+	}
+	return v, true
 }
